@@ -116,6 +116,11 @@ Proof. rewrite bytes_ok_app. intros H. apply andb_prop in H. tauto. Qed.
 Lemma bytes_ok_app_r a b : bytes_ok (a ++ b) = true -> bytes_ok b = true.
 Proof. rewrite bytes_ok_app. intros H. apply andb_prop in H. tauto. Qed.
 
+Lemma ssp_len_wf (ssp node demux : list N) :
+  len_ok ssp = true -> length ssp = (length node + length demux + 3)%nat ->
+  (nlen node + nlen demux + 3 <=? max_raw) = true.
+Proof. unfold len_ok, nlen, max_raw. intros H1 H2. lia. Qed.
+
 Lemma dec_eid_min bs e r : bytes_ok bs = true -> dec_eid bs = Ok e r ->
   eid_wf e = true /\ bytes_ok r = true /\ (length (enc_eid_body e) + length r <= length bs)%nat.
 Proof.
@@ -147,7 +152,7 @@ Proof.
         change (47 :: 47 :: node ++ 47 :: demux) with ([47; 47] ++ node ++ [47] ++ demux) in Hbs4.
         pose proof (bytes_ok_app_l _ _ (bytes_ok_app_r _ _ Hbs4)) as Hnode.
         pose proof (bytes_ok_app_r _ _ (bytes_ok_app_r _ _ (bytes_ok_app_r _ _ Hbs4))) as Hdemux.
-        rewrite Hnode, Hdemux. cbn [andb]. unfold len_ok, nlen, max_raw in *. lia.
+        rewrite Hnode, Hdemux. cbn [andb]. exact (ssp_len_wf ssp node demux Hlen4 Hlen_ssp).
       * cbn [enc_eid_body]. unfold enc_tstr. rewrite !app_length, Ha. 
         assert (Hsame : nlen (ssp_bytes node demux) = n) by (rewrite <- Hssp; exact Hn4). rewrite Hsame.
         rewrite <- Hssp. subst r3. rewrite app_length in Hl3.
@@ -164,4 +169,212 @@ Proof.
     cbn [enc_eid_body]. rewrite !app_length. unfold enc_uint at 2 3. 
     assert (Hu2 : length (enc_uint 2) = 1%nat) by reflexivity. rewrite Ha, Hu2.
     assert (Hh3 : (1 <= length (head_bytes mArray 2))%nat) by (cbn; lia). lia.
+Qed.
+
+(* ---- map-valued blocks ---- *)
+Definition pairs_rng (l : list (eid * N)) : bool := forallb (fun kv => eid_wf (fst kv) && u64_ok (snd kv)) l.
+
+Lemma map_set_rng k v acc : pairs_rng acc = true -> eid_wf k = true -> u64_ok v = true ->
+  pairs_rng (map_set k v acc) = true.
+Proof.
+  induction acc as [|[k' v'] acc IH]; cbn [map_set pairs_rng forallb fst snd]; intros Ha Hk Hv.
+  - rewrite Hk, Hv. reflexivity.
+  - apply andb_prop in Ha. destruct Ha as [Hh Ht]. apply andb_prop in Hh. destruct Hh as [Hk' Hv'].
+    destruct (eid_eqb k k'); cbn [pairs_rng forallb fst snd].
+    + rewrite Hk', Hv. exact Ht.
+    + rewrite Hk', Hv'. apply IH; assumption.
+Qed.
+
+Lemma map_set_keys k v acc k0 :
+  existsb (fun kv' => eid_eqb k0 (fst kv')) (map_set k v acc)
+  = existsb (fun kv' => eid_eqb k0 (fst kv')) acc || eid_eqb k0 k.
+Proof.
+  induction acc as [|[k' v'] acc IH]; cbn [map_set existsb fst].
+  - rewrite orb_false_r. reflexivity.
+  - destruct (eid_eqb k k') eqn:E; cbn [existsb fst].
+    + apply eid_eqb_eq in E. subst k'. destruct (eid_eqb k0 k); cbn; [reflexivity|]. rewrite orb_false_r. reflexivity.
+    + rewrite IH. rewrite orb_assoc. reflexivity.
+Qed.
+
+Lemma map_set_nodup k v acc : keys_nodup acc = true -> keys_nodup (map_set k v acc) = true.
+Proof.
+  induction acc as [|[k' v'] acc IH]; cbn [map_set keys_nodup existsb fst]; intros H; [reflexivity|].
+  apply andb_prop in H. destruct H as [H1 H2].
+  destruct (eid_eqb k k') eqn:E; cbn [keys_nodup fst].
+  - rewrite H1, H2. reflexivity.
+  - rewrite map_set_keys. apply negb_true_iff in H1. rewrite H1. cbn [orb].
+    rewrite eid_eqb_sym, E. cbn. apply IH, H2.
+Qed.
+
+Lemma map_set_len encv k v acc :
+  (length (enc_pairs_body encv (map_set k v acc))
+   <= length (enc_pairs_body encv acc) + length (enc_eid_body k) + length (encv v))%nat.
+Proof.
+  induction acc as [|[k' v'] acc IH]; cbn [map_set enc_pairs_body].
+  - rewrite !app_length. cbn [length]. lia.
+  - destruct (eid_eqb k k') eqn:E; cbn [enc_pairs_body]; rewrite !app_length.
+    + apply eid_eqb_eq in E. subst k'. lia.
+    + lia.
+Qed.
+
+Section PairsMin.
+Variable readv : list N -> res N.
+Variable encv : N -> list N.
+Hypothesis Hrd : forall bs v r, bytes_ok bs = true -> readv bs = Ok v r ->
+  u64_ok v = true /\ bytes_ok r = true /\ (length (encv v) + length r <= length bs)%nat.
+
+Lemma dec_pairs_min : forall fuel n acc bs l r,
+  bytes_ok bs = true -> dec_pairs fuel readv n acc bs = Ok l r ->
+  pairs_rng acc = true -> keys_nodup acc = true ->
+  pairs_rng l = true /\ keys_nodup l = true /\ bytes_ok r = true
+  /\ (length (enc_pairs_body encv l) + length r <= length (enc_pairs_body encv acc) + length bs)%nat.
+Proof.
+  induction fuel as [|fuel IH]; intros n acc bs l r Hb H Ha Hn; cbn [dec_pairs] in H.
+  - destruct (n =? 0); [|discriminate]. inversion H; subst. repeat split; try assumption. lia.
+  - destruct (n =? 0); [inversion H; subst; repeat split; try assumption; lia|].
+    destruct (dec_eid bs) as [k r1| |] eqn:E1; cbn [bind] in H; try discriminate.
+    destruct (dec_eid_min bs k r1 Hb E1) as (Hk & Hb1 & Hl1).
+    destruct (readv r1) as [v r2| |] eqn:E2; cbn [bind] in H; try discriminate.
+    destruct (Hrd r1 v r2 Hb1 E2) as (Hv & Hb2 & Hl2).
+    destruct (IH (n - 1) (map_set k v acc) r2 l r Hb2 H (map_set_rng k v acc Ha Hk Hv) (map_set_nodup k v acc Hn))
+      as (P1 & P2 & P3 & P4).
+    repeat split; try assumption. pose proof (map_set_len encv k v acc). lia.
+Qed.
+End PairsMin.
+
+Lemma read_uint_min bs v r : bytes_ok bs = true -> read_uint bs = Ok v r ->
+  u64_ok v = true /\ bytes_ok r = true /\ (length (enc_uint v) + length r <= length bs)%nat.
+Proof. intros Hb H. exact (read_expect_min mUInt bs v r Hb H). Qed.
+Lemma read_f64_min bs v r : bytes_ok bs = true -> read_f64 bs = Ok v r ->
+  u64_ok v = true /\ bytes_ok r = true /\ (length (enc_f64 v) + length r <= length bs)%nat.
+Proof. intros Hb H. exact (read_expect_min mSimple bs v r Hb H). Qed.
+
+(* ---- extension block values ---- *)
+Definition ext_rng (v : ext) : bool :=
+  match v with
+  | XPayload d => bytes_ok d
+  | XGeneric tc d => u64_ok tc && negb (known_type tc) && bytes_ok d
+  | XPrev e => eid_wf e
+  | XAge n => u64_ok n
+  | XHop l c => (l <=? 255) && (c <=? 255)
+  | XSpray n => u64_ok n
+  | XDtlsr id ts peers => eid_wf id && u64_ok ts && pairs_rng peers && keys_nodup peers
+  | XProphet preds => pairs_rng preds && keys_nodup preds
+  | XSig pk sg => bytes_ok pk && bytes_ok sg && len_ok pk && len_ok sg
+  end.
+
+Lemma pairs_rng_valid_wf l : pairs_rng l = true -> forallb (fun kv => eid_valid (fst kv)) l = true -> pairs_wf l = true.
+Proof.
+  induction l as [|[k v] l IH]; cbn [pairs_rng pairs_wf forallb fst snd]; intros H1 H2; [reflexivity|].
+  apply andb_prop in H1. destruct H1 as [Ha Hb]. apply andb_prop in Ha. destruct Ha as [Hk Hv].
+  apply andb_prop in H2. destruct H2 as [Hc Hd]. unfold eid_ok. rewrite Hk, Hc, Hv. cbn [andb].
+  apply IH; assumption.
+Qed.
+
+Lemma ext_rng_valid_wf v : ext_rng v = true -> ext_valid v = true -> ext_wf v = true.
+Proof.
+  destruct v; cbn [ext_rng ext_valid ext_wf]; intros H1 H2; try assumption.
+  - unfold eid_ok. rewrite H1, H2. reflexivity.
+  - repeat (apply andb_prop in H1; destruct H1 as [H1 ?]). apply andb_prop in H2. destruct H2 as [Hv1 Hv2].
+    unfold eid_ok. rewrite H1, Hv1. cbn [andb].
+    repeat (apply andb_true_intro; split); try assumption. apply pairs_rng_valid_wf; assumption.
+  - apply andb_prop in H1. destruct H1 as [Ha Hb]. rewrite Hb, andb_true_r. apply pairs_rng_valid_wf; assumption.
+Qed.
+
+Lemma len_ok_le (a b : list N) : (length a <= length b)%nat -> len_ok b = true -> len_ok a = true.
+Proof. unfold len_ok, nlen, max_raw. lia. Qed.
+
+Lemma dec_ext_min tc bs v r : u64_ok tc = true -> bytes_ok bs = true -> dec_ext tc bs = Ok v r ->
+  ext_rng v = true /\ len_ok (inner_of v) = true /\ bytes_ok r = true /\ (length r < length bs)%nat.
+Proof.
+  intros Htc Hb H. unfold dec_ext in H.
+  destruct (read_bstr bs) as [data rest| |] eqn:E; cbn [bind nobrk] in H; try discriminate.
+  destruct (read_bstr_min bs data rest Hb E) as (Hld & Hbd & Hbr & Hlen).
+  assert (Hlt : (length rest < length bs)%nat).
+  { unfold enc_bstr in Hlen. rewrite app_length in Hlen.
+    assert (1 <= length (head_bytes mBytes (nlen data)))%nat by (unfold head_bytes; destruct (nlen data <? 24); [cbn; lia|]; destruct (nlen data <? 256); [cbn; lia|]; destruct (nlen data <? 65536); [cbn; lia|]; destruct (nlen data <? 4294967296); cbn; lia).
+    lia. }
+  (* every branch: the re-encoding is no longer than data *)
+  assert (Hgoal : forall v0 r0, ext_rng v0 = true -> (length (inner_of v0) + length r0 <= length data)%nat ->
+            Ok v0 rest = Ok v r -> ext_rng v = true /\ len_ok (inner_of v) = true /\ bytes_ok r = true /\ (length r < length bs)%nat).
+  { intros v0 r0 Hr Hl Heq. inversion Heq; subst. repeat split; try assumption.
+    eapply len_ok_le; [|exact Hld]. lia. }
+  destruct (tc =? 1) eqn:T1.
+  { cbn [nobrk] in H. apply (Hgoal (XPayload data) []); [exact Hbd|cbn; lia|exact H]. }
+  destruct (tc =? 6) eqn:T6.
+  { destruct (dec_eid data) as [e r1| |] eqn:E1; cbn [bind nobrk] in H; try discriminate.
+    destruct (dec_eid_min data e r1 Hbd E1) as (He & _ & Hl). apply (Hgoal (XPrev e) r1); [exact He|exact Hl|exact H]. }
+  destruct (tc =? 7) eqn:T7.
+  { destruct (read_uint data) as [n r1| |] eqn:E1; cbn [bind nobrk] in H; try discriminate.
+    destruct (read_uint_min data n r1 Hbd E1) as (Hn & _ & Hl). apply (Hgoal (XAge n) r1); [exact Hn|exact Hl|exact H]. }
+  destruct (tc =? 10) eqn:T10.
+  { destruct (read_arr data) as [l r1| |] eqn:E1; cbn [bind nobrk] in H; try discriminate.
+    destruct (read_expect_min mArray data l r1 Hbd E1) as (_ & Hb1 & Hl1).
+    destruct (negb (l =? 2)) eqn:El; cbn [nobrk] in H; [discriminate|]. apply negb_false_iff, N.eqb_eq in El. subst l.
+    destruct (read_uint r1) as [lim r2| |] eqn:E2; cbn [bind nobrk] in H; try discriminate.
+    destruct (read_uint_min r1 lim r2 Hb1 E2) as (_ & Hb2 & Hl2).
+    destruct (255 <? lim) eqn:Elim; cbn [nobrk] in H; [discriminate|].
+    destruct (read_uint r2) as [cnt r3| |] eqn:E3; cbn [bind nobrk] in H; try discriminate.
+    destruct (read_uint_min r2 cnt r3 Hb2 E3) as (_ & Hb3 & Hl3).
+    destruct (255 <? cnt) eqn:Ecnt; cbn [nobrk] in H; [discriminate|].
+    apply (Hgoal (XHop lim cnt) r3); [cbn [ext_rng]; lia| |exact H].
+    cbn [inner_of]. rewrite !app_length. change (length (enc_arr 2)) with (length (head_bytes mArray 2)). unfold enc_uint in *. lia. }
+  destruct (tc =? 192) eqn:T192.
+  { destruct (read_uint data) as [n r1| |] eqn:E1; cbn [bind nobrk] in H; try discriminate.
+    destruct (read_uint_min data n r1 Hbd E1) as (Hn & _ & Hl). apply (Hgoal (XSpray n) r1); [exact Hn|exact Hl|exact H]. }
+  destruct (tc =? 193) eqn:T193.
+  { destruct (read_arr data) as [l r1| |] eqn:E1; cbn [bind nobrk] in H; try discriminate.
+    destruct (read_expect_min mArray data l r1 Hbd E1) as (_ & Hb1 & Hl1).
+    destruct (negb (l =? 3)) eqn:El; cbn [nobrk] in H; [discriminate|]. apply negb_false_iff, N.eqb_eq in El. subst l.
+    destruct (dec_eid r1) as [id r2| |] eqn:E2; cbn [bind nobrk] in H; try discriminate.
+    destruct (dec_eid_min r1 id r2 Hb1 E2) as (Hid & Hb2 & Hl2).
+    destruct (read_uint r2) as [ts r3| |] eqn:E3; cbn [bind nobrk] in H; try discriminate.
+    destruct (read_uint_min r2 ts r3 Hb2 E3) as (Hts & Hb3 & Hl3).
+    destruct (read_maplen r3) as [n r4| |] eqn:E4; cbn [bind nobrk] in H; try discriminate.
+    destruct (read_expect_min mMap r3 n r4 Hb3 E4) as (_ & Hb4 & Hl4).
+    destruct (dec_pairs (S (length r4)) read_uint n [] r4) as [ps r5| |] eqn:E5; cbn [bind nobrk] in H; try discriminate.
+    destruct (dec_pairs_min read_uint enc_uint read_uint_min _ _ _ _ _ _ Hb4 E5 eq_refl eq_refl) as (P1 & P2 & P3 & P4).
+    apply (Hgoal (XDtlsr id ts ps) r5); [cbn [ext_rng]; rewrite Hid, Hts, P1, P2; reflexivity| |exact H].
+    cbn [inner_of]. rewrite !app_length. cbn [enc_pairs_body length] in P4.
+    change (length (enc_arr 3)) with (length (head_bytes mArray 3)).
+    assert (Hml : (length (enc_maplen (nlen ps)) <= length (head_bytes mMap n) + length (enc_pairs_body enc_uint ps))%nat).
+    { unfold enc_maplen. pose proof (enc_pairs_body_length enc_uint ps) as Hpl.
+      pose proof (head_bytes_length_le mMap (nlen ps)). 
+      (* a count head is at most 9 bytes; when the decoded count needed a long head the pairs alone are longer *)
+      unfold head_bytes at 1. unfold nlen.
+      destruct (N.of_nat (length ps) <? 24) eqn:A1; [cbn [length]; pose proof (head_bytes_length_le mMap n); unfold head_bytes; destruct (n <? 24); cbn [length]; try lia; destruct (n <? 256); cbn [length]; try lia; destruct (n <? 65536); cbn [length]; rewrite ?be_encode_length; try lia; destruct (n <? 4294967296); cbn [length]; rewrite ?be_encode_length; lia|].
+      assert (1 <= length (head_bytes mMap n))%nat by (unfold head_bytes; destruct (n <? 24); [cbn; lia|]; destruct (n <? 256); [cbn; lia|]; destruct (n <? 65536); [cbn; lia|]; destruct (n <? 4294967296); cbn; lia).
+      destruct (N.of_nat (length ps) <? 256); [cbn [length]; lia|].
+      destruct (N.of_nat (length ps) <? 65536); [cbn [length]; rewrite be_encode_length; lia|].
+      destruct (N.of_nat (length ps) <? 4294967296); cbn [length]; rewrite be_encode_length; lia. }
+    unfold enc_uint in *. lia. }
+  destruct (tc =? 194) eqn:T194.
+  { destruct (read_maplen data) as [n r4| |] eqn:E4; cbn [bind nobrk] in H; try discriminate.
+    destruct (read_expect_min mMap data n r4 Hbd E4) as (_ & Hb4 & Hl4).
+    destruct (dec_pairs (S (length r4)) read_f64 n [] r4) as [ps r5| |] eqn:E5; cbn [bind nobrk] in H; try discriminate.
+    destruct (dec_pairs_min read_f64 enc_f64 read_f64_min _ _ _ _ _ _ Hb4 E5 eq_refl eq_refl) as (P1 & P2 & P3 & P4).
+    apply (Hgoal (XProphet ps) r5); [cbn [ext_rng]; rewrite P1, P2; reflexivity| |exact H].
+    cbn [inner_of]. rewrite !app_length. cbn [enc_pairs_body length] in P4.
+    assert (Hml : (length (enc_maplen (nlen ps)) <= length (head_bytes mMap n) + length (enc_pairs_body enc_f64 ps))%nat).
+    { unfold enc_maplen. pose proof (enc_pairs_body_length enc_f64 ps) as Hpl.
+      unfold head_bytes at 1. unfold nlen.
+      assert (1 <= length (head_bytes mMap n))%nat by (unfold head_bytes; destruct (n <? 24); [cbn; lia|]; destruct (n <? 256); [cbn; lia|]; destruct (n <? 65536); [cbn; lia|]; destruct (n <? 4294967296); cbn; lia).
+      destruct (N.of_nat (length ps) <? 24); [cbn [length]; lia|].
+      destruct (N.of_nat (length ps) <? 256); [cbn [length]; lia|].
+      destruct (N.of_nat (length ps) <? 65536); [cbn [length]; rewrite be_encode_length; lia|].
+      destruct (N.of_nat (length ps) <? 4294967296); cbn [length]; rewrite be_encode_length; lia. }
+    lia. }
+  destruct (tc =? 195) eqn:T195.
+  { destruct (read_arr data) as [l r1| |] eqn:E1; cbn [bind nobrk] in H; try discriminate.
+    destruct (read_expect_min mArray data l r1 Hbd E1) as (_ & Hb1 & Hl1).
+    destruct (negb (l =? 2)) eqn:El; cbn [nobrk] in H; [discriminate|]. apply negb_false_iff, N.eqb_eq in El. subst l.
+    destruct (read_bstr r1) as [pk r2| |] eqn:E2; cbn [bind nobrk] in H; try discriminate.
+    destruct (read_bstr_min r1 pk r2 Hb1 E2) as (Hlpk & Hbpk & Hb2 & Hl2).
+    destruct (read_bstr r2) as [sg r3| |] eqn:E3; cbn [bind nobrk] in H; try discriminate.
+    destruct (read_bstr_min r2 sg r3 Hb2 E3) as (Hlsg & Hbsg & Hb3 & Hl3).
+    apply (Hgoal (XSig pk sg) r3); [cbn [ext_rng]; rewrite Hbpk, Hbsg, Hlpk, Hlsg; reflexivity| |exact H].
+    cbn [inner_of]. rewrite !app_length. change (length (enc_arr 2)) with (length (head_bytes mArray 2)). lia. }
+  cbn [nobrk] in H.
+  apply (Hgoal (XGeneric tc data) []); [|cbn; lia|exact H].
+  cbn [ext_rng]. rewrite Hbd, andb_true_r, Htc. unfold known_type. rewrite T1, T6, T7, T10, T192, T193, T194, T195. reflexivity.
 Qed.
